@@ -129,6 +129,18 @@ def check_case(ctx: Ctx, c: Dict[str, Any], files: bool = False, scratch: str = 
             got = guarded(f"{lvl}.{nm}", lambda: pick(getattr(obj, nm)()), level=lvl, attr=nm)
             if got is not None:
                 cmp(f"{lvl}.{nm}()", torch.as_tensor(got).flatten(), exp, tl, level=lvl, attr=nm)
+    # the setters called with one number per axis (origin(x, y, z) ...), copying and in place
+    gb = Grid(size=n, spacing=[1.0] * D, direction=direction)
+    for how, mk in (("origin(*scalars)", lambda: gb.spacing(*spacing).origin(*origin)), ("origin_(*scalars)", lambda: gb.spacing(*spacing).origin_(*origin)),
+                    ("center(*scalars)", lambda: gb.spacing(*spacing).center(*center)), ("center_(*scalars)", lambda: gb.spacing(spacing).center_(*center)),
+                    ("spacing_(*scalars)", lambda: Grid(size=n, direction=direction).spacing_(*spacing).origin_(origin)),
+                    ("direction(*scalars)", lambda: Grid(size=n, spacing=spacing).direction(*direction).origin(origin)),
+                    ("direction_(*scalars)", lambda: Grid(size=n, spacing=spacing).direction_(*direction).origin_(origin))):
+        g = guarded("Grid." + how, mk, how=how)
+        if g is not None:
+            cmp("Grid." + how + ".index_to_world", g.index_to_world(pts), phys, tol32, how=how)
+    if max_err(gb.spacing(), [1.0] * D) > 0:
+        ctx.violation(dict(op="Grid.spacing", what="mutates", **sig0), "a copying setter changed the grid it was called on", c)
     # redundant but consistent arguments: size AND shape, origin AND center - the same grid; inconsistent ones are refused
     for how, mk in (("size+shape", lambda: Grid(size=n, shape=tuple(reversed(n)), origin=origin, spacing=spacing, direction=direction)),
                     ("origin+center", lambda: Grid(size=n, origin=origin, center=center, spacing=spacing, direction=direction)),
